@@ -453,6 +453,28 @@ fn parse_events(dir: &Path) -> Vec<AgentEv> {
     v
 }
 
+/// True when n2 runs under a sanitizer or valgrind (these reserve huge address ranges).
+pub fn wants_address_space(env: &RealEnv) -> bool {
+    let n = env.n2.to_string_lossy();
+    n.contains("n2-asan") || n.contains("n2-tsan") || !env.wrapper.is_empty()
+}
+
+/// Address-space limit of the n2 child, to be called between fork and exec: a 6 GB soft cap (a runaway
+/// allocation in n2 must not take the machine down), lifted entirely for sanitizer builds and valgrind.
+pub unsafe fn child_address_space(unlimited: bool) {
+    let mut lim = libc::rlimit { rlim_cur: 0, rlim_max: 0 };
+    if libc::getrlimit(libc::RLIMIT_AS, &mut lim) != 0 {
+        return;
+    }
+    if unlimited {
+        lim.rlim_cur = lim.rlim_max;
+    } else {
+        let cap: libc::rlim_t = 6 << 30;
+        lim.rlim_cur = if lim.rlim_max == libc::RLIM_INFINITY { cap } else { cap.min(lim.rlim_max) };
+    }
+    libc::setrlimit(libc::RLIMIT_AS, &lim);
+}
+
 /// Run the real n2 once.
 pub fn run_real(env: &RealEnv, w: &World, inv: &RInv) -> ROut {
     let t0 = Instant::now();
@@ -493,7 +515,7 @@ pub fn run_real(env: &RealEnv, w: &World, inv: &RInv) -> ROut {
     // own process group, so that stragglers can be reaped
     unsafe {
         use std::os::unix::process::CommandExt;
-        let cap = !env.n2.to_string_lossy().contains("n2-asan") && !env.n2.to_string_lossy().contains("n2-tsan") && env.wrapper.is_empty();
+        let unlimited = wants_address_space(env);
         cmd.pre_exec(move || {
             libc::setpgid(0, 0);
             // A check started as a background job of a non-interactive shell inherits SIGINT/SIGQUIT
@@ -503,11 +525,7 @@ pub fn run_real(env: &RealEnv, w: &World, inv: &RInv) -> ROut {
             libc::signal(libc::SIGQUIT, libc::SIG_DFL);
             libc::signal(libc::SIGHUP, libc::SIG_DFL);
             libc::signal(libc::SIGPIPE, libc::SIG_DFL);
-            if cap {
-                // a runaway allocation in n2 must not take the machine down
-                let lim = libc::rlimit { rlim_cur: 6 << 30, rlim_max: 6 << 30 };
-                libc::setrlimit(libc::RLIMIT_AS, &lim);
-            }
+            child_address_space(unlimited);
             Ok(())
         });
     }
